@@ -341,3 +341,119 @@ func (r *Report) Lint(key string, roots []*ssa.Function, allow []lintAllow, minF
 	}
 	r.OK(key+"|clean", d, "-", fmt.Sprintf("%d functions linted, %d forbidden-construct hits, %d map ranges", n, len(hits), len(ranges)))
 }
+
+// =====================================================================================
+// Swallowed-error census (C02.R7): in functions reachable from begin/end-block roots, a call whose error result is
+// tested and whose error edge does NOT lead to a failure return (the function carries on) is a deliberate decision
+// that must be in the frozen table: the callee has to be read-only up to its failure points or run on a cache context.
+
+type swallow struct {
+	Fn, Callee, Pos string
+	Path            []string
+}
+
+func (w *World) SwallowedErrors(roots []*ssa.Function) map[string]*swallow {
+	reach := w.ReachableFrom(roots, nil)
+	out := map[string]*swallow{}
+	for fn, path := range reach {
+		if len(fn.Blocks) == 0 || !inRepoScope(fn) || (fn.Synthetic != "" && fn.Parent() == nil) {
+			continue
+		}
+		if strings.HasSuffix(w.Fset.Position(fn.Pos()).Filename, ".pb.go") {
+			continue
+		}
+		fk := FuncKey(fn)
+		for _, b := range fn.Blocks {
+			ifi := ifOf(b)
+			if ifi == nil {
+				continue
+			}
+			bo, ok := ifi.Cond.(*ssa.BinOp)
+			if !ok || (bo.Op != token.NEQ && bo.Op != token.EQL) {
+				continue
+			}
+			var ev ssa.Value
+			if isNilConst(bo.Y) && isErrorType(bo.X.Type()) {
+				ev = bo.X
+			} else if isNilConst(bo.X) && isErrorType(bo.Y.Type()) {
+				ev = bo.Y
+			} else {
+				continue
+			}
+			// the error comes from a call
+			var call *ssa.Call
+			switch x := seeThrough(ev).(type) {
+			case *ssa.Call:
+				call = x
+			case *ssa.Extract:
+				call, _ = x.Tuple.(*ssa.Call)
+			}
+			if call == nil {
+				continue
+			}
+			errSucc := b.Succs[0]
+			if bo.Op == token.EQL {
+				errSucc = b.Succs[1]
+			}
+			// does every path from the error edge end in a failure return or a panic?
+			swallowed := false
+			for rb := range reachFrom(errSucc, map[*ssa.BasicBlock]bool{b: true}) {
+				if rt := returnOf(rb); rt != nil {
+					idx := errResultIndex(fn)
+					if idx < 0 {
+						swallowed = true // function has no error result: the error cannot be propagated
+					} else if idx < len(rt.Results) && isNilConst(retValue(rt, idx)) {
+						swallowed = true
+					}
+				}
+			}
+			// error edge loops back (continue) without returning
+			if !swallowed {
+				for rb := range reachFrom(errSucc, map[*ssa.BasicBlock]bool{b: true}) {
+					for _, s := range rb.Succs {
+						if s == b {
+							swallowed = true
+						}
+					}
+				}
+			}
+			if !swallowed {
+				continue
+			}
+			name := CalleeName(&call.Call)
+			if name == "" {
+				name = "<dynamic>"
+			}
+			k := fk + "|" + name
+			if _, ok := out[k]; !ok {
+				out[k] = &swallow{fk, name, w.posOr(ifi.Cond.Pos(), fn), path}
+			}
+		}
+	}
+	return out
+}
+
+type swallowAllow struct{ Fn, Callee, Why string }
+
+func (r *Report) Swallowed(key string, roots []*ssa.Function, table []swallowAllow, min int) {
+	w := r.W
+	d := "every error that begin/end-block code tests and then does not propagate is a recorded, justified decision (callee read-only before failing, or run on a cache context)"
+	got := w.SwallowedErrors(roots)
+	if len(got) < min {
+		r.Unres(key+"|min", d, fmt.Sprintf("%d swallow sites found, expected >= %d", len(got), min))
+	}
+	for _, k := range sortedKeys(got) {
+		s := got[k]
+		why := ""
+		for _, a := range table {
+			if a.Fn == s.Fn && nameMatch(s.Callee, a.Callee) {
+				why = a.Why
+			}
+		}
+		if why != "" {
+			r.OK(key+"|"+k, d, s.Pos, "accepted: "+why)
+		} else {
+			r.Bad(key+"|"+k, d, s.Pos, fmt.Sprintf("%s tests the error of %s and carries on: not in the accepted table", s.Fn, s.Callee), s.Path...)
+		}
+	}
+}
